@@ -139,6 +139,24 @@ def digests_of(mod, optimize):
 
 def worker(spec):
     """spec: {'sequence': [tid...], 'same_object': n}; prints, for every position, the digests (both optimise settings)"""
+    if spec.get('clock'):
+        # the clock is an environment answer the worker decides: 'late' = a process that has been running for a year,
+        # 'jumpy' = every reading is an hour after the previous one (any elapsed-time budget is exhausted at once)
+        import time
+        state = {'n': 0}
+        for fn in ('time', 'monotonic', 'perf_counter', 'process_time', 'thread_time'):
+            real = getattr(time, fn)
+
+            def shifted(real=real):
+                state['n'] += 1
+                return real() + (365 * 86400.0 if spec['clock'] == 'late' else 3600.0 * state['n'])
+            setattr(time, fn, shifted)
+            real_ns = getattr(time, fn + '_ns')
+
+            def shifted_ns(real_ns=real_ns):
+                state['n'] += 1
+                return real_ns() + int((365 * 86400.0 if spec['clock'] == 'late' else 3600.0 * state['n']) * 1e9)
+            setattr(time, fn + '_ns', shifted_ns)
     res = []
     for tid in spec['sequence']:
         fac = build_target(tid)
@@ -269,9 +287,13 @@ def main(argv=None) -> int:
     for t in T:
         if t.split(':')[0] in ('shipped', 'graph', 'nested', 'expr'):
             work.append(({'sequence': [t], 'mutate': True}, 0))
+    # the process clocks answer differently (a long-lived process; readings far apart)
+    for t in T:
+        for clock in ('late', 'jumpy'):
+            work.append(({'sequence': [t], 'clock': clock}, 0))
     for spec, seed, data, err in par.pmap(run_spec, work):
         agg['configurations'] = agg.get('configurations', 0) + 1
-        kind = 'grown_after_serialising' if spec.get('mutate') else 'same_object' if spec.get('same_object') else ('history' if len(spec['sequence']) > 1 else 'hashseed')
+        kind = 'clock' if spec.get('clock') else 'grown_after_serialising' if spec.get('mutate') else 'same_object' if spec.get('same_object') else ('history' if len(spec['sequence']) > 1 else 'hashseed')
         if data is None:
             chk.violation({'kind': 'worker_crash', 'config': kind}, {'spec': spec, 'seed': seed}, f'{spec} under seed {seed}: {err}')
             continue
@@ -303,7 +325,7 @@ def main(argv=None) -> int:
     pyrun.cleanup()
     chk.set('evaluations', agg.get('outputs_compared', 0))
     chk.set('distinct_nontrivial', agg.get('configurations', 0))
-    chk.set('rule', 'every (target, hash seed), every sequence of targets up to the bound, every target serialised three times from one '
+    chk.set('rule', 'every (target, hash seed), every (target, clock answer), every sequence of targets up to the bound, every target serialised three times from one '
                     'object; each configuration runs in its own process and is distinct; all are non-trivial (12 files compared each)')
     chk.set('exhaustive', True)
     chk.set('detail', agg)
